@@ -306,6 +306,9 @@ PROPS["C13"] = {
         {"pkg": "verifx/c13", "run": "^TestC13Pool$",
          "quick": {"checks": 120, "shards": 12, "timeout": 700},
          "thorough": {"checks": 2500, "shards": 16, "timeout": 1700}},
+        {"pkg": "verifx/c13", "run": "^TestC13Concurrent$",
+         "quick": {"checks": 60, "shards": 4, "timeout": 700},
+         "thorough": {"checks": 600, "shards": 8, "timeout": 1700, "race": True}},
     ],
 }
 
